@@ -1,5 +1,550 @@
-//! impl -> spec: drivers that exercise the real API and log one event per public call.
-pub fn main(_args: &[String]) {
-    eprintln!("drivers: not built yet");
-    std::process::exit(2);
+//! impl -> spec: seeded drivers that exercise the real public API and log one ndjson event per
+//! call, at its return (in a sequential library that is the linearisation point), with the full
+//! projected abstract state.  The events are validated against Trace.tla by TLC.
+
+use crate::ops;
+use crate::proj::*;
+use crate::rec::*;
+use serde_json::{json, Value};
+use std::io::Write;
+use std::str::FromStr;
+use unic_langid_impl::subtags::{Language, Region, Script, Variant};
+use unic_langid_impl::LanguageIdentifier;
+use unic_locale_impl::{ExtensionsMap, Locale};
+
+pub struct Rng(u64);
+impl Rng {
+    pub fn new(seed: u64) -> Self {
+        Rng(seed.wrapping_mul(0x9E3779B97F4A7C15) ^ 0xD1B54A32D192ED03)
+    }
+    pub fn next(&mut self) -> u64 {
+        let mut x = self.0;
+        x ^= x >> 12;
+        x ^= x << 25;
+        x ^= x >> 27;
+        self.0 = x;
+        x.wrapping_mul(0x2545F4914F6CDD1D)
+    }
+    pub fn below(&mut self, n: usize) -> usize {
+        if n == 0 { 0 } else { (self.next() % n as u64) as usize }
+    }
+    pub fn chance(&mut self, num: u64, den: u64) -> bool {
+        self.next() % den < num
+    }
+    pub fn pick<'a, T>(&mut self, xs: &'a [T]) -> &'a T {
+        &xs[self.below(xs.len())]
+    }
+}
+
+const LOWER: &[u8] = b"abcdefghijklmnopqrstuvwxyz";
+const DIGIT: &[u8] = b"0123456789";
+const ALNUM: &[u8] = b"abcdefghijklmnopqrstuvwxyz0123456789";
+
+fn word(r: &mut Rng, set: &[u8], lo: usize, hi: usize) -> Vec<u8> {
+    let n = lo + r.below(hi - lo + 1);
+    (0..n).map(|_| *r.pick(set)).collect()
+}
+
+fn gen_lang(r: &mut Rng) -> Vec<u8> {
+    const POOL: &[&str] = &["en", "de", "und", "zh", "sr", "ar", "he", "abcde", "abcdefgh", "fil", "uz", "pa"];
+    if r.chance(3, 4) { r.pick(POOL).as_bytes().to_vec() } else {
+        let n = *r.pick(&[2usize, 3, 5, 6, 7, 8]);
+        word(r, LOWER, n, n)
+    }
+}
+fn gen_script(r: &mut Rng) -> Vec<u8> {
+    const POOL: &[&str] = &["Latn", "Cyrl", "Arab", "Hans", "Hant", "Mong", "Hebr"];
+    if r.chance(3, 4) { r.pick(POOL).as_bytes().to_vec() } else { word(r, LOWER, 4, 4) }
+}
+fn gen_region(r: &mut Rng) -> Vec<u8> {
+    const POOL: &[&str] = &["US", "GB", "419", "001", "RS", "CN", "TW", "PK", "AF"];
+    if r.chance(2, 3) { r.pick(POOL).as_bytes().to_vec() } else if r.chance(1, 2) { word(r, LOWER, 2, 2) } else { word(r, DIGIT, 3, 3) }
+}
+fn gen_variant(r: &mut Rng) -> Vec<u8> {
+    const POOL: &[&str] = &["valencia", "1996", "macos", "posix", "1abc", "fonipa"];
+    if r.chance(1, 2) { r.pick(POOL).as_bytes().to_vec() } else if r.chance(1, 3) {
+        let mut v = word(r, DIGIT, 1, 1);
+        v.extend(word(r, ALNUM, 3, 3));
+        v
+    } else { word(r, ALNUM, 5, 8) }
+}
+fn gen_li_tokens(r: &mut Rng) -> Vec<Vec<u8>> {
+    let mut t = vec![gen_lang(r)];
+    if r.chance(1, 2) { t.push(gen_script(r)); }
+    if r.chance(1, 2) { t.push(gen_region(r)); }
+    for _ in 0..r.below(3) { t.push(gen_variant(r)); }
+    t
+}
+fn gen_ukey(r: &mut Rng) -> Vec<u8> {
+    const POOL: &[&str] = &["ca", "hc", "nu", "co", "1a", "kf"];
+    if r.chance(3, 4) { r.pick(POOL).as_bytes().to_vec() } else {
+        let mut k = word(r, ALNUM, 1, 1);
+        k.extend(word(r, LOWER, 1, 1));
+        k
+    }
+}
+fn gen_tkey(r: &mut Rng) -> Vec<u8> {
+    let mut k = word(r, LOWER, 1, 1);
+    k.extend(word(r, DIGIT, 1, 1));
+    k
+}
+fn gen_type(r: &mut Rng) -> Vec<u8> {
+    const POOL: &[&str] = &["buddhist", "gregory", "h12", "true", "latn", "phonebk", "hybrid", "islamic", "civil"];
+    if r.chance(2, 3) { r.pick(POOL).as_bytes().to_vec() } else { word(r, ALNUM, 3, 8) }
+}
+
+/// a well-formed locale as tokens (distinct keys, no empty bodies), before case/separator noise
+pub fn gen_locale_tokens(r: &mut Rng) -> Vec<Vec<u8>> {
+    let mut t = gen_li_tokens(r);
+    let mut exts: Vec<Vec<Vec<u8>>> = Vec::new();
+    if r.chance(1, 2) {
+        let mut u = vec![b"u".to_vec()];
+        for _ in 0..r.below(3) { u.push(word(r, ALNUM, 3, 8)); }
+        let mut keys: Vec<Vec<u8>> = Vec::new();
+        for _ in 0..r.below(4) {
+            let k = gen_ukey(r);
+            if keys.contains(&k) { continue; }
+            keys.push(k.clone());
+            u.push(k);
+            for _ in 0..r.below(3) { u.push(gen_type(r)); }
+        }
+        if u.len() > 1 { exts.push(u); }
+    }
+    if r.chance(1, 2) {
+        let mut tt = vec![b"t".to_vec()];
+        if r.chance(2, 3) { tt.extend(gen_li_tokens(r)); }
+        let mut keys: Vec<Vec<u8>> = Vec::new();
+        for _ in 0..r.below(3) {
+            let k = gen_tkey(r);
+            if keys.contains(&k) { continue; }
+            keys.push(k.clone());
+            tt.push(k);
+            for _ in 0..(1 + r.below(2)) { tt.push(gen_type(r)); }
+        }
+        if tt.len() > 1 { exts.push(tt); }
+    }
+    if exts.len() == 2 && r.chance(1, 2) { exts.swap(0, 1); }
+    for e in exts { t.extend(e); }
+    if r.chance(1, 4) {
+        t.push(b"x".to_vec());
+        for _ in 0..(1 + r.below(3)) { t.push(word(r, ALNUM, 1, 8)); }
+    }
+    t
+}
+
+pub fn noisy_join(r: &mut Rng, toks: &[Vec<u8>]) -> Vec<u8> {
+    let mode = r.below(4);
+    let mut out = Vec::new();
+    for (i, t) in toks.iter().enumerate() {
+        if i > 0 { out.push(if mode >= 2 && r.chance(1, 3) { b'_' } else { b'-' }); }
+        for &c in t {
+            let c2 = match mode {
+                1 => c.to_ascii_uppercase(),
+                2 | 3 if r.chance(1, 3) => if c.is_ascii_lowercase() { c.to_ascii_uppercase() } else { c.to_ascii_lowercase() },
+                _ => c,
+            };
+            out.push(c2);
+        }
+    }
+    out
+}
+
+pub fn mutate(r: &mut Rng, mut v: Vec<u8>) -> Vec<u8> {
+    const ODD: &[u8] = &[0, b' ', b'.', b'*', b'-', b'_', b'$', 0x7f, 0x80, 0xc3, 0xff, b'@', b'[', b'`', b'{', b'/', b':'];
+    for _ in 0..(1 + r.below(3)) {
+        let pos = r.below(v.len() + 1);
+        match r.below(6) {
+            0 if !v.is_empty() => { let p = pos.min(v.len() - 1); v[p] = if r.chance(1, 2) { *r.pick(ODD) } else { *r.pick(ALNUM) }; }
+            1 => v.insert(pos, if r.chance(1, 2) { *r.pick(ODD) } else { *r.pick(ALNUM) }),
+            2 if !v.is_empty() => { v.remove(pos.min(v.len() - 1)); }
+            3 => { v.truncate(pos); }
+            4 => { let extra: Vec<u8> = b"-u-ca-buddhist"[..r.below(14) + 1].to_vec(); v.splice(pos..pos, extra); }
+            _ => { v.insert(pos, b'-'); }
+        }
+    }
+    v
+}
+
+fn out_of<T, E: std::fmt::Debug>(r: &Result<Result<T, E>, String>) -> Value {
+    match r {
+        Ok(Ok(_)) => json!({"k":"ok"}),
+        Ok(Err(_)) => json!({"k":"err"}),
+        Err(at) => json!({"k":"panic","at": short_at(at)}),
+    }
+}
+
+fn li_err_kind(e: &unic_langid_impl::LanguageIdentifierError) -> &'static str {
+    use unic_langid_impl::parser::ParserError as P;
+    use unic_langid_impl::LanguageIdentifierError as E;
+    match e {
+        E::ParserError(P::InvalidLanguage) => "InvalidLanguage",
+        E::ParserError(P::InvalidSubtag) => "InvalidSubtag",
+        E::Unknown => "Unknown",
+    }
+}
+
+fn default_li() -> Value {
+    proj_li(&LanguageIdentifier::default())
+}
+
+pub struct Log {
+    f: std::io::BufWriter<std::fs::File>,
+    pub n: u64,
+    pub by_op: std::collections::BTreeMap<String, u64>,
+}
+impl Log {
+    pub fn new(path: &str) -> Self {
+        Log { f: std::io::BufWriter::new(std::fs::File::create(path).expect("trace file")), n: 0, by_op: Default::default() }
+    }
+    pub fn ev(&mut self, v: Value) {
+        *self.by_op.entry(v["op"].as_str().unwrap_or("?").to_string()).or_insert(0) += 1;
+        let _ = writeln!(self.f, "{}", v);
+        self.n += 1;
+    }
+}
+
+pub fn ev_li_parse(log: &mut Log, input: &[u8]) {
+    let r = guard(|| LanguageIdentifier::from_bytes(input));
+    let (out, st, ser) = match &r {
+        Ok(Ok(v)) => (json!({"k":"ok"}), proj_li(v), b(&v.to_string())),
+        Ok(Err(e)) => (json!({"k":"err","err": li_err_kind(e)}), default_li(), json!([])),
+        Err(at) => (json!({"k":"panic","at": short_at(at)}), default_li(), json!([])),
+    };
+    log.ev(json!({"op":"li_parse","in": bytes(input),"out": out,"st": st,"ser": ser}));
+}
+
+pub fn ev_loc_parse(log: &mut Log, input: &[u8]) -> Option<Locale> {
+    let r = guard(|| Locale::from_bytes(input));
+    let out = out_of(&r);
+    let (st, ser) = match &r {
+        Ok(Ok(v)) => (proj_loc(v), b(&v.to_string())),
+        _ => (proj_loc(&Locale::default()), json!([])),
+    };
+    log.ev(json!({"op":"loc_parse","in": bytes(input),"out": out,"st": st,"ser": ser}));
+    match r { Ok(Ok(v)) => Some(v), _ => None }
+}
+
+pub fn ev_ext_parse(log: &mut Log, input: &[u8]) {
+    let r = guard(|| ExtensionsMap::from_bytes(input));
+    let out = out_of(&r);
+    let (st, ser) = match &r {
+        Ok(Ok(e)) => (proj_ext(default_li(), e), b(&e.to_string())),
+        _ => (proj_loc(&Locale::default()), json!([])),
+    };
+    log.ev(json!({"op":"ext_parse","in": bytes(input),"out": out,"st": st,"ser": ser}));
+}
+
+fn ev_sub(log: &mut Log, kind: &str, input: &[u8]) {
+    macro_rules! one {
+        ($ty:ty, $raw:expr) => {{
+            let r = guard(|| <$ty>::from_bytes(input));
+            let out = out_of(&r);
+            let (text, raw) = match &r {
+                Ok(Ok(v)) => (b(v.as_str()), $raw(v)),
+                _ => (json!([]), json!([])),
+            };
+            log.ev(json!({"op":"sub","kind": kind,"in": bytes(input),"out": out,"text": text,"raw": raw}));
+        }};
+    }
+    match kind {
+        "language" => one!(Language, |v: &Language| { let x: Option<u64> = (*v).into(); x.map(|x| bytes(&x.to_le_bytes())).unwrap_or(json!([])) }),
+        "script" => one!(Script, |v: &Script| { let x: u32 = (*v).into(); bytes(&x.to_le_bytes()) }),
+        "region" => one!(Region, |v: &Region| { let x: u32 = (*v).into(); bytes(&x.to_le_bytes()) }),
+        _ => one!(Variant, |v: &Variant| { let x: u64 = (*v).into(); bytes(&x.to_le_bytes()) }),
+    }
+}
+
+fn hash_of<T: std::hash::Hash>(t: &T) -> u64 {
+    use std::hash::Hasher;
+    let mut h = std::collections::hash_map::DefaultHasher::new();
+    t.hash(&mut h);
+    h.finish()
+}
+fn ord_name(o: std::cmp::Ordering) -> &'static str {
+    match o { std::cmp::Ordering::Less => "lt", std::cmp::Ordering::Equal => "eq", std::cmp::Ordering::Greater => "gt" }
+}
+
+fn ev_cmp(log: &mut Log, a: &Locale, bb: &Locale) {
+    let r = guard(|| (a == bb, a.cmp(bb), bb.cmp(a), a.id.cmp(&bb.id), hash_of(a) == hash_of(bb), a.to_string() == bb.to_string()));
+    match r {
+        Ok((eq, ord, rev, lio, heq, seq)) => log.ev(json!({"op":"cmp","a": proj_loc(a),"b": proj_loc(bb),"eq": eq,"ord": ord_name(ord),
+            "rev": ord_name(rev),"li_ord": ord_name(lio),"hash_eq": heq,"str_eq": seq})),
+        Err(at) => log.ev(json!({"op":"li_parse","in": [], "out": {"k":"panic","at": short_at(&at)}, "st": default_li(), "ser": []})),
+    }
+}
+
+fn ev_match(log: &mut Log, a: &Locale, bb: &Locale, ra: bool, rb: bool) {
+    if let Ok((ml, mi)) = guard(|| (a.matches(bb, ra, rb), a.id.matches(&bb.id, ra, rb))) {
+        log.ev(json!({"op":"match","a": proj_loc(a),"b": proj_loc(bb),"ra": ra,"rb": rb,"loc": ml,"li": mi}));
+    }
+}
+
+fn ev_value(log: &mut Log, loc: &Locale) {
+    let ser = loc.to_string();
+    let reparse_ok = matches!(guard(|| Locale::from_bytes(ser.as_bytes())), Ok(Ok(ref l2)) if l2 == loc && l2.to_string() == ser);
+    let es = loc.extensions.to_string();
+    let ext_ok = matches!(guard(|| ExtensionsMap::from_bytes(es.as_bytes())), Ok(Ok(ref e2)) if *e2 == loc.extensions);
+    let parts_ok = matches!(guard(|| {
+        let (l, s, r, v, e) = loc.clone().into_parts();
+        ExtensionsMap::from_str(&e).map(|em| Locale::from_parts(l, s, r, &v, Some(em)))
+    }), Ok(Ok(ref l3)) if l3 == loc);
+    log.ev(json!({"op":"value","st": proj_loc(loc),"ser": b(&ser),"reparse_ok": reparse_ok,"ext_reparse_ok": ext_ok,"parts_ok": parts_ok}));
+}
+
+// ---- argument pools for histories: valid, boundary, invalid ------------------------------------
+fn arg_sub(r: &mut Rng, valid: &[&str], invalid: &[&str]) -> Vec<u8> {
+    let mut v = if r.chance(4, 5) { r.pick(valid).as_bytes().to_vec() } else { r.pick(invalid).as_bytes().to_vec() };
+    if r.chance(1, 4) { v = v.to_ascii_uppercase(); }
+    if r.chance(1, 25) { v = mutate(r, v); }
+    v
+}
+
+fn gen_op(r: &mut Rng, likely: bool) -> Value {
+    const UKEYS: &[&str] = &["ca", "hc", "nu", "1a", "co"];
+    const BADKEYS: &[&str] = &["c", "cal", "c1", "", "c-", "\u{e9}a"];
+    const TKEYS: &[&str] = &["h0", "k0", "m0", "t9"];
+    const BADT: &[&str] = &["0h", "hh", "h", "", "h00"];
+    const TYPES: &[&str] = &["buddhist", "gregory", "h12", "true", "islamic", "civil", "abc", "abcdefgh"];
+    const BADTYPES: &[&str] = &["ab", "abcdefghi", "a*c", "", "a-b"];
+    const ATTRS: &[&str] = &["foo", "bar", "abc", "abcdefgh", "zzz", "true"];
+    const TAGS: &[&str] = &["a", "b", "foo", "abcdefgh", "1", "x", "u"];
+    const BADTAGS: &[&str] = &["", "abcdefghi", "a*", "a-b"];
+    const LANGS: &[&str] = &["en", "de", "und", "zh", "sr", "ar", "abcde", "abcdefgh"];
+    const BADLANGS: &[&str] = &["e", "abcd", "abcdefghi", "e1", ""];
+    const SCRIPTS: &[&str] = &["Latn", "Cyrl", "Arab", "Hant"];
+    const BADSCRIPTS: &[&str] = &["Lat", "Latin", "L4tn", ""];
+    const REGIONS: &[&str] = &["US", "RS", "419", "TW", "PK"];
+    const BADREGIONS: &[&str] = &["U", "USA", "41", "4190", "u1"];
+    const VARIANTS: &[&str] = &["valencia", "1996", "macos", "1abc", "abcde"];
+    const BADVARIANTS: &[&str] = &["abcd", "abc", "abcdefghi", "1.ab", "x"];
+    const TLANGS: &[&str] = &["en", "en-US", "de-Latn-AT-1996", "und", "sr-Cyrl", "zh-hant-tw"];
+    const BADTLANGS: &[&str] = &["x", "en-", "", "en-u-ca", "e"];
+    let vals = |r: &mut Rng, good: &[&str], bad: &[&str]| -> Vec<Value> {
+        (0..r.below(3)).map(|_| { let pool = if r.chance(1, 6) { bad } else { good }; bytes(&arg_sub(r, good, pool)) }).collect()
+    };
+    let n = if likely { 30 } else { 28 };
+    match r.below(n) {
+        0 => json!({"op":"set_language","s": bytes(&arg_sub(r, LANGS, BADLANGS)),"key":[],"vals":[]}),
+        1 => json!({"op":"clear_language","s":[],"key":[],"vals":[]}),
+        2 => json!({"op":"set_script","s": bytes(&arg_sub(r, SCRIPTS, BADSCRIPTS)),"key":[],"vals":[]}),
+        3 => json!({"op":"clear_script","s":[],"key":[],"vals":[]}),
+        4 => json!({"op":"set_region","s": bytes(&arg_sub(r, REGIONS, BADREGIONS)),"key":[],"vals":[]}),
+        5 => json!({"op":"clear_region","s":[],"key":[],"vals":[]}),
+        6 => json!({"op":"set_variants","s":[],"key":[],"vals": vals(r, VARIANTS, BADVARIANTS)}),
+        7 => json!({"op":"clear_variants","s":[],"key":[],"vals":[]}),
+        8 => json!({"op":"has_variant","s": bytes(&arg_sub(r, VARIANTS, BADVARIANTS)),"key":[],"vals":[]}),
+        9 | 10 => json!({"op":"set_keyword","s":[],"key": bytes(&arg_sub(r, UKEYS, BADKEYS)),"vals": vals(r, TYPES, BADTYPES)}),
+        11 => json!({"op":"remove_keyword","s":[],"key": bytes(&arg_sub(r, UKEYS, BADKEYS)),"vals":[]}),
+        12 => json!({"op":"keyword","s":[],"key": bytes(&arg_sub(r, UKEYS, BADKEYS)),"vals":[]}),
+        13 => json!({"op": if r.chance(1, 8) {"clear_keywords"} else {"clear_attributes"},"s":[],"key":[],"vals":[]}),
+        14 | 15 => json!({"op":"set_attribute","s": bytes(&arg_sub(r, ATTRS, BADTYPES)),"key":[],"vals":[]}),
+        16 => json!({"op":"remove_attribute","s": bytes(&arg_sub(r, ATTRS, BADTYPES)),"key":[],"vals":[]}),
+        17 => json!({"op":"has_attribute","s": bytes(&arg_sub(r, ATTRS, BADTYPES)),"key":[],"vals":[]}),
+        18 => json!({"op":"set_tlang","s": bytes(&arg_sub(r, TLANGS, BADTLANGS)),"key":[],"vals":[]}),
+        19 => json!({"op": if r.chance(1, 2) {"clear_tlang"} else {"clear_tfields"},"s":[],"key":[],"vals":[]}),
+        20 | 21 => json!({"op":"set_tfield","s":[],"key": bytes(&arg_sub(r, TKEYS, BADT)),"vals": vals(r, TYPES, BADTYPES)}),
+        22 => json!({"op":"remove_tfield","s":[],"key": bytes(&arg_sub(r, TKEYS, BADT)),"vals":[]}),
+        23 => json!({"op":"tfield","s":[],"key": bytes(&arg_sub(r, TKEYS, BADT)),"vals":[]}),
+        24 | 25 => json!({"op":"add_tag","s": bytes(&arg_sub(r, TAGS, BADTAGS)),"key":[],"vals":[]}),
+        26 => json!({"op": if r.chance(1, 6) {"clear_tags"} else {"remove_tag"},"s": bytes(&arg_sub(r, TAGS, BADTAGS)),"key":[],"vals":[]}),
+        27 => json!({"op": if r.chance(1, 2) {"has_tag"} else {"reparse"},"s": bytes(&arg_sub(r, TAGS, BADTAGS)),"key":[],"vals":[]}),
+        28 => json!({"op":"maximize","s":[],"key":[],"vals":[]}),
+        _ => json!({"op":"minimize","s":[],"key":[],"vals":[]}),
+    }
+}
+
+fn drive_parse(r: &mut Rng, n: usize, log: &mut Log) {
+    for _ in 0..n {
+        let toks = gen_locale_tokens(r);
+        let mut input = noisy_join(r, &toks);
+        match r.below(10) {
+            0..=3 => {}
+            4..=7 => input = mutate(r, input),
+            8 => input = (0..r.below(12)).map(|_| (r.next() & 0xff) as u8).collect(),
+            _ => { let li = gen_li_tokens(r); input = noisy_join(r, &li); if r.chance(1, 2) { input = mutate(r, input); } }
+        }
+        ev_li_parse(log, &input);
+        ev_loc_parse(log, &input);
+        // the extension part on its own, through ExtensionsMap::from_bytes
+        if let Some(p) = input.windows(3).position(|w| (w[0] == b'-' || w[0] == b'_') && (w[2] == b'-' || w[2] == b'_')) {
+            let start = if r.chance(1, 2) { p } else { p + 1 };
+            ev_ext_parse(log, &input[start..]);
+        }
+    }
+}
+
+fn drive_sub(r: &mut Rng, n: usize, log: &mut Log) {
+    let kinds = ["language", "script", "region", "variant"];
+    for _ in 0..n {
+        let kind = *r.pick(&kinds);
+        let mut v = match r.below(4) { 0 => gen_lang(r), 1 => gen_script(r), 2 => gen_region(r), _ => gen_variant(r) };
+        if r.chance(1, 3) { v = v.to_ascii_uppercase(); }
+        if r.chance(1, 3) { v = mutate(r, v); }
+        if r.chance(1, 10) { v = (0..r.below(10)).map(|_| (r.next() & 0xff) as u8).collect(); }
+        ev_sub(log, kind, &v);
+    }
+}
+
+fn drive_hist(r: &mut Rng, n: usize, log: &mut Log, likely: bool) {
+    let mut pool: Vec<Locale> = vec![Locale::default()];
+    let mut produced = 0usize;
+    while produced < n {
+        // start: default() or a parsed well-formed locale
+        let (text, mut loc) = if r.chance(1, 3) { (Vec::new(), Locale::default()) } else {
+            let toks = gen_locale_tokens(r);
+            let t = noisy_join(r, &toks);
+            match guard(|| Locale::from_bytes(&t)) { Ok(Ok(l)) => (t, l), _ => (Vec::new(), Locale::default()) }
+        };
+        log.ev(json!({"op":"start","in": bytes(&text),"out":{"k":"ok"},"st": proj_loc(&loc)}));
+        produced += 1;
+        let len = 5 + r.below(56);
+        for step in 0..len {
+            let op = gen_op(r, likely);
+            let res = guard(|| ops::apply(&mut loc, &op));
+            let out = match res { Ok(x) => x, Err(at) => json!({"k":"panic","at": short_at(&at)}) };
+            log.ev(json!({"op":"op","o": op,"out": out,"st": proj_loc(&loc),"ser": b(&loc.to_string()),"empties": empties(&loc.extensions)}));
+            produced += 1;
+            if step % 7 == 6 {
+                ev_value(log, &loc);
+                let other = pool[r.below(pool.len())].clone();
+                ev_cmp(log, &loc, &other);
+                ev_match(log, &loc, &other, r.chance(1, 2), r.chance(1, 2));
+                produced += 3;
+                if pool.len() < 64 { pool.push(loc.clone()); } else { let k = r.below(64); pool[k] = loc.clone(); }
+            }
+        }
+        ev_value(log, &loc);
+        produced += 1;
+    }
+}
+
+fn drive_meta(r: &mut Rng, n: usize, log: &mut Log) {
+    for _ in 0..n {
+        let toks = gen_locale_tokens(r);
+        let mut a_toks = toks.clone();
+        if r.chance(1, 4) {
+            // make it ill-formed first: the transformed version must fail the same way
+            let k = r.below(a_toks.len());
+            a_toks[k] = mutate(r, a_toks[k].clone()).into_iter().filter(|c| *c != b'-' && *c != b'_').collect();
+        }
+        let a = noisy_join(r, &a_toks);
+        let mut b_toks = a_toks.clone();
+        let tr = match r.below(5) {
+            0 => "case+sep",
+            1 if b_toks.len() > 2 => { let k = 1 + r.below(b_toks.len() - 2); b_toks.swap(k, k + 1); "swap-adjacent" }
+            2 if b_toks.len() > 1 => { let k = 1 + r.below(b_toks.len() - 1); let t = b_toks[k].clone(); b_toks.insert(k, t); "duplicate" }
+            3 => {
+                // rotate two extension blocks
+                let pos: Vec<usize> = b_toks.iter().enumerate().filter(|(i, t)| *i > 0 && t.len() == 1).map(|(i, _)| i).collect();
+                if pos.len() >= 2 {
+                    let (p0, p1) = (pos[0], pos[1]);
+                    let end = if pos.len() > 2 { pos[2] } else { b_toks.len() };
+                    let mut nt = b_toks[..p0].to_vec();
+                    nt.extend_from_slice(&b_toks[p1..end]);
+                    nt.extend_from_slice(&b_toks[p0..p1]);
+                    nt.extend_from_slice(&b_toks[end..]);
+                    b_toks = nt;
+                }
+                "swap-blocks"
+            }
+            _ => "case+sep",
+        };
+        let bb = noisy_join(r, &b_toks);
+        let got = guard(|| (Locale::from_bytes(&a), Locale::from_bytes(&bb)));
+        let same = match &got {
+            Ok((Ok(x), Ok(y))) => x == y && x.to_string() == y.to_string(),
+            Ok((Err(_), Err(_))) => true,
+            _ => false,
+        };
+        log.ev(json!({"op":"meta","a": bytes(&a),"b": bytes(&bb),"tr": tr,"same": same}));
+    }
+}
+
+#[cfg(feature = "likelysubtags")]
+fn likely_event(log: &mut Log, l: &[u8], s: &[u8], rg: &[u8]) {
+    use unic_langid_impl::likelysubtags;
+    let mk = || -> Option<(Language, Option<Script>, Option<Region>)> {
+        Some((Language::from_bytes(l).ok()?,
+              if s.is_empty() { None } else { Some(Script::from_bytes(s).ok()?) },
+              if rg.is_empty() { None } else { Some(Region::from_bytes(rg).ok()?) }))
+    };
+    let t = match mk() { Some(t) => t, None => return };
+    let enc = |x: Option<(Language, Option<Script>, Option<Region>)>| -> Value {
+        match x {
+            Some(y) => json!([true, [b(y.0.as_str()), y.1.map(|q| b(q.as_str())).unwrap_or(json!([])), y.2.map(|q| b(q.as_str())).unwrap_or(json!([]))]]),
+            None => json!([false, [b(t.0.as_str()), t.1.map(|q| b(q.as_str())).unwrap_or(json!([])), t.2.map(|q| b(q.as_str())).unwrap_or(json!([]))]]),
+        }
+    };
+    if let Ok((mx, mn)) = guard(|| (likelysubtags::maximize(t.0, t.1, t.2), likelysubtags::minimize(t.0, t.1, t.2))) {
+        log.ev(json!({"op":"likely","l": b(t.0.as_str()),"s": t.1.map(|q| b(q.as_str())).unwrap_or(json!([])),
+                      "r": t.2.map(|q| b(q.as_str())).unwrap_or(json!([])),"max": enc(mx),"min": enc(mn)}));
+    } else {
+        log.ev(json!({"op":"li_parse","in": bytes(l),"out": {"k":"panic","at":"likelysubtags"},"st": default_li(),"ser": []}));
+    }
+}
+
+fn dir_event(log: &mut Log, l: &[u8], s: &[u8], rg: &[u8]) {
+    let mk = || -> Option<LanguageIdentifier> {
+        Some(LanguageIdentifier::from_parts(Language::from_bytes(l).ok()?,
+              if s.is_empty() { None } else { Some(Script::from_bytes(s).ok()?) },
+              if rg.is_empty() { None } else { Some(Region::from_bytes(rg).ok()?) }, &[]))
+    };
+    if let Some(li) = mk() {
+        if let Ok(d) = guard(|| li.character_direction()) {
+            let name = format!("{:?}", d);
+            log.ev(json!({"op":"dir","l": b(li.language.as_str()),"s": li.script.map(|q| b(q.as_str())).unwrap_or(json!([])),
+                          "r": li.region.map(|q| b(q.as_str())).unwrap_or(json!([])),"likely": cfg!(feature = "likelysubtags"),"dir": name}));
+        }
+    }
+}
+
+fn drive_likely(r: &mut Rng, n: usize, log: &mut Log, data: &str) {
+    let text = std::fs::read_to_string(data).expect("likelySubtags.json");
+    let v: Value = serde_json::from_str(&text).expect("json");
+    let mut langs: Vec<String> = vec!["und".into(), "zz".into(), "qqq".into()];
+    let mut scripts: Vec<String> = vec!["".into(), "Zzzz".into(), "Qaaa".into()];
+    let mut regions: Vec<String> = vec!["".into(), "ZZ".into(), "999".into()];
+    for (k, val) in v["supplemental"]["likelySubtags"].as_object().expect("object") {
+        for (i, p) in k.split('-').chain(val.as_str().unwrap_or("").split('-')).enumerate() {
+            let _ = i;
+            match p.len() {
+                4 if p.chars().all(|c| c.is_ascii_alphabetic()) => scripts.push(p.to_string()),
+                2 | 3 if p.chars().all(|c| c.is_ascii_uppercase() || c.is_ascii_digit()) => regions.push(p.to_string()),
+                _ => langs.push(p.to_string()),
+            }
+        }
+    }
+    langs.sort(); langs.dedup(); scripts.sort(); scripts.dedup(); regions.sort(); regions.dedup();
+    for _ in 0..n {
+        let l = if r.chance(1, 6) { "und".to_string() } else { r.pick(&langs).clone() };
+        let s = if r.chance(1, 2) { String::new() } else { r.pick(&scripts).clone() };
+        let rg = if r.chance(1, 2) { String::new() } else { r.pick(&regions).clone() };
+        #[cfg(feature = "likelysubtags")]
+        likely_event(log, l.as_bytes(), s.as_bytes(), rg.as_bytes());
+        dir_event(log, l.as_bytes(), s.as_bytes(), rg.as_bytes());
+    }
+}
+
+pub fn main(args: &[String]) {
+    let get = |name: &str| args.iter().position(|a| a == name).and_then(|i| args.get(i + 1).cloned());
+    let driver = args.first().cloned().unwrap_or_default();
+    let seed: u64 = get("--seed").and_then(|s| s.parse().ok()).unwrap_or(1);
+    let n: usize = get("--n").and_then(|s| s.parse().ok()).unwrap_or(1000);
+    let out = get("--out").expect("--out FILE");
+    let data = get("--likely-data").unwrap_or_else(|| "/repo/unic-langid-impl/data/likelySubtags.json".into());
+    let mut r = Rng::new(seed ^ (driver.len() as u64) << 32 ^ driver.bytes().fold(0u64, |a, c| a.wrapping_mul(131).wrapping_add(c as u64)));
+    let mut log = Log::new(&out);
+    match driver.as_str() {
+        "parse" => drive_parse(&mut r, n, &mut log),
+        "sub" => drive_sub(&mut r, n, &mut log),
+        "hist" => drive_hist(&mut r, n, &mut log, cfg!(feature = "likelysubtags")),
+        "hist-nolikely" => drive_hist(&mut r, n, &mut log, false),
+        "meta" => drive_meta(&mut r, n, &mut log),
+        "likely" => drive_likely(&mut r, n, &mut log, &data),
+        _ => {
+            eprintln!("unknown driver {}", driver);
+            std::process::exit(2);
+        }
+    }
+    println!("{}", json!({"driver": driver, "seed": seed, "events": log.n, "by_op": log.by_op}));
 }
